@@ -50,6 +50,7 @@ type cut struct {
 type caseSpec struct {
 	Scenario     string      `json:"scenario"`
 	Auth         bool        `json:"auth"`
+	NoUsers      bool        `json:"no_users,omitempty"` // authentication enabled with an empty user list: nobody is let in
 	User         string      `json:"user,omitempty"`
 	Pass         string      `json:"pass,omitempty"`
 	Host         string      `json:"host"`
@@ -779,6 +780,8 @@ func genCase(r *core.RNG, small bool) *caseSpec {
 		na := r.Pick(0, 0, 1, 1, 2, 3, 5)
 		if c.Scenario == "auth-fail-only" {
 			na = r.Range(1, 5)
+			// authentication enabled while no user is configured (all accounts revoked): every credential is wrong
+			c.NoUsers = r.Chance(1, 2)
 		}
 		for k := 0; k < na; k++ {
 			wrong := ""
@@ -797,6 +800,9 @@ func genCase(r *core.RNG, small bool) *caseSpec {
 					base64.StdEncoding.EncodeToString([]byte(c.User+":"+c.Pass)),
 					"Basic "+base64.RawStdEncoding.EncodeToString([]byte(c.User+":"+c.Pass+"zz"))+"!",
 				)
+				if c.NoUsers && r.Bool() {
+					wrong = validCred // well-formed, but there is no such user: there are no users
+				}
 			}
 			last := k == na-1
 			cl := c.Scenario == "auth-fail-only" && last && r.Bool()
